@@ -531,6 +531,12 @@ def read_monitor(logdir: str | None) -> dict[str, Any] | None:
     worst: dict[str, Any] | None = None
     first_bad: dict[str, Any] | None = None
     for e in ev:
+        if e.get('ev') == 'mon_error':
+            # the monitor failed to describe this pass execution: count it
+            # as a possible numerical rewrite (keeps the budget sound)
+            mon_errors += 1
+            changed_numeric += 1
+            continue
         if e.get('ev') != 'pass':
             continue
         passes[e['name']] = passes.get(e['name'], 0) + 1
